@@ -248,8 +248,7 @@ static RunResult exec_sched(const Plan &p)
 			if (!write_file(rp, mfmt::encode(e, eo))) { res.fail("INFRA", "write_file", "shared table"); return res; }
 			res.probes["shared-table-from-independent-encoder"]++;
 		} else if (!write_table(rp, e, (int)(p.geti("rd_comp", 0) % 6), 4, 1024)) { res.fail("INFRA", "write_table", "shared table"); return res; }
-		mtbl_reader_options *ro = mtbl_reader_options_init();
-		mtbl_reader_options_set_verify_checksums(ro, p.geti("rd_verify", 0));
+		mtbl_reader_options *ro = make_reader_options(p.geti("rd_verify", 0) != 0, optvar_next() & 1);
 		rd = mtbl_reader_init(rp.c_str(), ro);
 		mtbl_reader_options_destroy(&ro);
 		if (!rd) { res.fail("INFRA", "reader_init", "shared table"); return res; }
